@@ -74,11 +74,12 @@ def gen_case(rng, tier, idx):
             d_ = 0.05 * T0 * (e_ - e_.mean())
             s1, r_ = float(gen.pick(rng, [0.5, 1.0, 2.0])), float(gen.pick(rng, [2.0, 3.0]))
             k_ = r_ ** float(gen.pick(rng, [1.5, 3.0]))
-            meas = [dict(Q=np.eye(shape[0]), kind='identity', y=T0 * pub + d_, sigma=s1, proj=(attrs[0],)),
+            agree = rng.rand() < 0.5    # the accurate answer is exactly what the uniformly weighted public data gives
+            meas = [dict(Q=np.eye(shape[0]), kind='identity', y=T0 * pub + (0.0 if agree else 1.0) * d_, sigma=s1, proj=(attrs[0],)),
                     dict(Q=np.eye(shape[0]), kind='identity', y=T0 * pub - k_ * d_, sigma=s1 * r_, proj=(attrs[0],))]
         calls.append(dict(meas=meas, total=total))
     return dict(attrs=attrs, shape=shape, rows=rows, public_class=pc, N=N, calls=calls,
-                spellings=gen.pick(rng, ['dense', 'csr']), metric=gen.pick(rng, ['L2', 'L2', 'L2', 'L1']))
+                spellings=gen.pick(rng, ['dense', 'csr']), metric=gen.pick(rng, ['L2', 'L1'] if conflict else ['L2', 'L2', 'L2', 'L1']))
 
 
 def describe(case):
